@@ -496,12 +496,26 @@ func ruleP13Clauses(p *Prog, r *Report) {
 			// a boolean helper that bundles several clauses: `if !matches(o, r) { continue }` —
 			// every `return false` of the helper is a skip edge of its own
 			if g0 := flattenCond(t.Cond, cs == 0, t)[0]; !g0.Pol {
-				if hc, _ := g0.Cond.(*ssa.Call); hc != nil && isHelper(rawStaticCallee(hc)) {
+				hc, _ := g0.Cond.(*ssa.Call)
+				// … or a helper that hands back (the record as it passes, whether it passes)
+				if ex, isEx := g0.Cond.(*ssa.Extract); isEx && hc == nil {
+					if c, isC := ex.Tuple.(*ssa.Call); isC && ex.Index == c.Call.Signature().Results().Len()-1 {
+						hc = c
+					}
+				}
+				if hc != nil && isHelper(rawStaticCallee(hc)) {
 					h := originFn(rawStaticCallee(hc))
 					expanded := 0
+					last := h.Signature.Results().Len() - 1
 					vcall{call: hc, chain: []ssa.CallInstruction{hc}}.run(func() {
 						for _, ret := range returnsOf(h) {
-							if b, isB := constBool(retResult(ret, 0)); !isB || b {
+							if b, isB := constBool(retResult(ret, last)); !isB || b {
+								if last > 0 && !(isB && b) {
+									expanded = -1000 // an answer that is not a constant: not understood
+								}
+								if last > 0 && isB && b && !recElem(retResult(ret, 0), elem) {
+									r.bad(rule, "pass:helper-record", p.instrPos(ret), "the record handed back by %s for a passing record is not the record (or its reduced form)", h.Name())
+								}
 								continue
 							}
 							for _, rp := range ret.Block().Preds {
@@ -605,7 +619,20 @@ func ruleP13Clauses(p *Prog, r *Report) {
 				if c, ok := in.(*ssa.Call); ok {
 					if bi, ok := c.Call.Value.(*ssa.Builtin); ok && bi.Name() == "append" {
 						els, ok2 := sliceLitElems(c.Call.Args[1])
-						if ok2 && len(els) == 1 && recElem(els[0], elem) {
+						okRec := ok2 && len(els) == 1 && recElem(els[0], elem)
+						if ok2 && len(els) == 1 && !okRec {
+							// the record as a clause helper handed it back (checked at the helper's returns)
+							if ex, isEx := strip(els[0]).(*ssa.Extract); isEx && ex.Index == 0 {
+								if c, isC := ex.Tuple.(*ssa.Call); isC && isHelper(rawStaticCallee(c)) && c.Call.Signature().Results().Len() == 2 {
+									for _, a := range c.Call.Args {
+										if recElem(a, elem) {
+											okRec = true
+										}
+									}
+								}
+							}
+						}
+						if okRec {
 							if ph, isPhi := strip(c.Call.Args[0]).(*ssa.Phi); isPhi && ph.Block() == header {
 								okApp = true
 								nAppend++
